@@ -20,7 +20,7 @@ from . import c01
 ID = "C07"
 LEVEL = "exploration"
 TECHNIQUE = "deterministic simulation: getProperties requests from a real client over the fragmented simulated wire at random points of driver-state histories; emitted definitions (router tap) compared with the driver's state; re-parse monitor on every message any driver emits"
-RULE = ("scenario = generated deployment x history of driver-side operations (values, states, vector/group/element enable flips, BLOB set) "
+RULE = ("scenario = generated deployment (numbers with both, one or no limit declared) x history of driver-side operations (values, states, vector/group/element enable flips, BLOB set) "
         "with getProperties(device in {existing, other, unknown, absent}, name in {enabled, disabled, unknown, absent}) requests at seeded "
         "points x network knobs; distinct = different signature (request classes used, vector kinds, ops used, net knobs); non-trivial = "
         "at least one request judged after at least one driver-side state change")
